@@ -51,8 +51,52 @@ REQUIRED = ['tag:param-hides-global', 'tag:recursion', 'tag:return-in-loop',
             'tag:routine-3params', 'st:return', 'st:call']
 
 
+# arguments that carry no value (a call of a routine that returns nothing): the
+# parameter is still a private copy that hides the global of its name
+NOTHING = ('define nothing begin return end '
+           'define nothing2 with q begin if { q > 100 } return 1 end ')
+PROBES = [
+    (NOTHING + 'assign x 9 define fill with x begin assign x 5 return x end '
+     'print [ fill [ nothing ] ] print x', [5, 9]),
+    (NOTHING + 'assign x 9 define fill with x begin repeat 2 begin if { 1 } '
+     'begin assign x { 3 + 4 } end end return x end '
+     'print [ fill [ nothing ] ] print x', [7, 9]),
+    (NOTHING + 'assign x 9 assign y 1 define two with y x begin assign x y '
+     'assign y 4 return { x + y } end print [ two 2 [ nothing2 5 ] ] print x '
+     'print y', [6, 9, 1]),
+    (NOTHING + 'assign x 9 define outer with x begin define_inner end',
+     None),
+    (NOTHING + 'assign x 9 assign r [ nothing ] define fill with x begin '
+     'assign x 5 return x end print [ fill r ] print x', [5, 9]),
+    (NOTHING + 'assign x 9 define deep with x n begin if { n > 0 } begin '
+     'return [ deep [ nothing ] { n - 1 } ] end assign x 2 return x end '
+     'print [ deep 1 2 ] print x', [2, 9]),
+]
+
+
+def part_probes(ctx):
+    from bvf import diffrun
+    from bvf.runner import run_script
+    for text, want in PROBES:
+        if want is None:
+            continue
+        diffrun.setup([])
+        r = run_script(text)
+        ctx.case('probe:' + text)
+        got = [e[2] for e in r.log if e[0] == 'out' and e[1] == 'out']
+        replay = {'kind': 'probe', 'script': text}
+        if not r.accepted or r.stops or got != want:
+            ctx.violation('probe:valueless-argument',
+                          'printed {} expected {} {} {} | {}'.format(
+                              got, want, r.errors, r.stops[:1], text), replay)
+        else:
+            ctx.count('probes_ok')
+
+
 def run_shard(ctx):
     n = N[ctx.tier]
+    if ctx.shard == 0:
+        part_probes(ctx)
     for i in range(ctx.shard, n, ctx.nshards):
         out = progcheck.one_case(ctx, i, PROFILE, 'c03')
         if out is None:
@@ -74,4 +118,11 @@ def finalize(merged):
 
 
 def replay(doc):
+    if doc['replay'].get('kind') == 'probe':
+        from bvf import diffrun
+        from bvf.runner import run_script
+        diffrun.setup([])
+        r = run_script(doc['replay']['script'])
+        print([e for e in r.log if e[0] == 'out'], r.errors, r.stops)
+        return 0
     return progcheck.replay_doc(doc)
